@@ -346,7 +346,7 @@ func NewGraph(metaData *MetaData, build *BuildDirective, varPool *VarPool) (*Gra
 				if t == nil {
 					return nil, fmt.Errorf("provider has nil type at group %d, index %d", groupIndex, typeIndex)
 				}
-				key := t.String()
+				key := typeKey(t)
 
 				if existing, ok := fnProviderMap[key]; ok {
 					// Allow the same provider to provide multiple types (e.g., concrete and interface)
@@ -374,7 +374,7 @@ func NewGraph(metaData *MetaData, build *BuildDirective, varPool *VarPool) (*Gra
 		}
 
 		// Find the provider that provides this struct type
-		structTypeKey := structProvider.StructType.String()
+		structTypeKey := typeKey(structProvider.StructType)
 		if _, ok := fnProviderMap[structTypeKey]; !ok {
 			return nil, fmt.Errorf("no provider for struct type %s", structTypeKey)
 		}
@@ -391,7 +391,7 @@ func NewGraph(metaData *MetaData, build *BuildDirective, varPool *VarPool) (*Gra
 			}
 			declOrder++
 
-			fieldTypeKey := field.Type.String()
+			fieldTypeKey := typeKey(field.Type)
 			if _, ok := fnProviderMap[fieldTypeKey]; ok {
 				return nil, fmt.Errorf("multiple providers provide %s (field %s conflicts with existing provider)", fieldTypeKey, field.Name)
 			}
@@ -408,7 +408,7 @@ func NewGraph(metaData *MetaData, build *BuildDirective, varPool *VarPool) (*Gra
 	if build.Return.Type == nil {
 		return nil, fmt.Errorf("return type is nil")
 	}
-	returnTypeKey := build.Return.Type.String()
+	returnTypeKey := typeKey(build.Return.Type)
 
 	returnProvider, ok := fnProviderMap[returnTypeKey]
 	if !ok {
@@ -456,7 +456,7 @@ func NewGraph(metaData *MetaData, build *BuildDirective, varPool *VarPool) (*Gra
 			if t == nil {
 				return nil, fmt.Errorf("provider has nil required type at index %d", i)
 			}
-			key := t.String()
+			key := typeKey(t)
 			var (
 				n2       *node
 				srcIndex int
@@ -711,6 +711,58 @@ func (g *Graph) injectContextArg(injector *Injector, metaData *MetaData, varPool
 	injector.Params = append([]*InjectorParam{contextParam}, injector.Params...)
 
 	return nil
+}
+
+// typeKey is the key under which a type is looked up: identical types get the
+// same key however they are spelled (through an alias, with or without
+// parameter names in a function type).
+func typeKey(t types.Type) string {
+	return canonicalType(t).String()
+}
+
+func canonicalType(t types.Type) types.Type {
+	switch t := types.Unalias(t).(type) {
+	case *types.Pointer:
+		return types.NewPointer(canonicalType(t.Elem()))
+	case *types.Slice:
+		return types.NewSlice(canonicalType(t.Elem()))
+	case *types.Array:
+		return types.NewArray(canonicalType(t.Elem()), t.Len())
+	case *types.Map:
+		return types.NewMap(canonicalType(t.Key()), canonicalType(t.Elem()))
+	case *types.Chan:
+		return types.NewChan(t.Dir(), canonicalType(t.Elem()))
+	case *types.Signature:
+		return types.NewSignatureType(nil, nil, nil, canonicalTuple(t.Params()), canonicalTuple(t.Results()), t.Variadic())
+	case *types.Named:
+		typeArgs := t.TypeArgs()
+		if typeArgs == nil || typeArgs.Len() == 0 {
+			return t
+		}
+
+		args := make([]types.Type, typeArgs.Len())
+		for i := range args {
+			args[i] = canonicalType(typeArgs.At(i))
+		}
+
+		if inst, err := types.Instantiate(nil, t.Origin(), args, false); err == nil {
+			return inst
+		}
+
+		return t
+	default:
+		return t
+	}
+}
+
+func canonicalTuple(tuple *types.Tuple) *types.Tuple {
+	vars := make([]*types.Var, tuple.Len())
+	for i := range vars {
+		v := tuple.At(i)
+		vars[i] = types.NewParam(v.Pos(), v.Pkg(), "", canonicalType(v.Type()))
+	}
+
+	return types.NewTuple(vars...)
 }
 
 func (g *Graph) autoAddMissingDependencies(metaData *MetaData, t types.Type, varPool *VarPool) (*node, error) {
